@@ -186,6 +186,13 @@ func run(c Case) (info, error) {
 		if err := r.Undo(); err != nil || t.Newick() != before {
 			return fail("Undo without Apply changed the tree or failed (%v)", err)
 		}
+		// a rearrangement that was undone can be applied again (a search re-applies its best move)
+		if err := r.Apply(); err != nil || t.Newick() != applied {
+			return fail("Apply after Undo does not give the neighbour again (%v): %s", err, t.Newick())
+		}
+		if err := r.Undo(); err != nil || t.Newick() != before {
+			return fail("second Undo does not restore the tree (%v): %s", err, t.Newick())
+		}
 		i++
 		return true
 	})
@@ -201,8 +208,16 @@ func run(c Case) (info, error) {
 	}
 	if c.CLI && !strings.ContainsAny(before, "\r\n") { // the command reads its input line by line
 		// the command handles a stream of trees: the same tree twice must give the list twice
-		r := cli.Run(cli.Scratch(), before+"\n"+before+"\n", "nni")
+		dir := cli.Scratch()
+		r := cli.Run(dir, before+"\n"+before+"\n", "nni")
 		texts = append(append([]string{}, texts...), texts...)
+		if c.Reroot == -1 && len(c.Tree.Tips())%2 == 0 {
+			// the same list written with -o file
+			r2 := cli.Run(dir, before+"\n"+before+"\n", "nni", "-o", "nni.out")
+			if r2.Code != 0 || cli.Read(dir, "nni.out") != r.Stdout {
+				return inf, fmt.Errorf("gotree nni -o file writes %d bytes (status %d), stdout gives %d bytes", len(cli.Read(dir, "nni.out")), r2.Code, len(r.Stdout))
+			}
+		}
 		if r.Code != 0 || r.TimedOut {
 			return inf, fmt.Errorf("gotree nni exited with %d: %s", r.Code, r.Stderr)
 		}
